@@ -44,6 +44,8 @@ impl Block {
 }
 
 fn main() {
+    // a stack overflow / abort in the code under test must become a verdict, not a dead check
+    vcore::supervise("C06");
     let ctx = Ctx::from_args("C06", "exploration");
     let nondet = AtomicBool::new(false);
 
